@@ -465,6 +465,9 @@ class Ex:
         arrs = self.litems_arrays(lst)
         comps = et.comps()
         vs = v.items if et.kind == "tuple" else [v]
+        vs = [self.fit_list(x, ct) if (ct.kind == "list" and x.ty.kind == "list") else x for x, ct in zip(vs, comps)]
+        arrs = self.litems_arrays(lst)
+        n = self.llen(lst)
         new = [z3.Store(a, n, self.coerce(x, ct).t) for a, x, ct in zip(arrs, vs, comps)]
         self.lset_items(lst, new)
         self.set_len(lst, n + 1)
@@ -672,7 +675,8 @@ class Ex:
         # havoc
         mods = ls.get("modifies")
         con = fr.contract
-        speceval.havoc(self, fr, mods if mods is not None else (con.modifies if con else []), f"loop{k}")
+        speceval.havoc(self, fr, mods if mods is not None else (con.modifies if con else []), f"loop{k}",
+                       base_alloc=(fr.old[1] if fr.old is not None else None))
         self.havoc_locals(names, fr, f"l{k}")
         if extra_locals:
             extra_locals(fr)
